@@ -145,6 +145,9 @@ type c18bWorld struct {
 	sessions  int // 1, or 2: the source is stopped and started again on the same ring while DEED keeps writing
 	session   int
 	pause     time.Duration
+	restart   int  // two sessions: 0 DEED keeps writing; 1 DEED is restarted with another packet size and re-creates the ring; 2 … and rewrites the description block of the existing ring
+	kill      bool // DEED is killed where it stands
+	oldPsize  int  // the packet size before DEED was restarted (0: never restarted)
 	prepDelay time.Duration
 	salt      uint32
 	ts0       uint64
@@ -258,9 +261,37 @@ func newC18bWorld(env *simrt.Env) *c18bWorld {
 	w.ts0 = 1000 + uint64(simrt.Draw(1<<30))
 	w.tsRate = 1e8
 
-	// frames per packet: limited by the packet size (one value for all groups)
-	w.fpp = 1
 	w.hdrLen = w.headerLength()
+	w.drawFrames()
+
+	w.period = time.Duration(c18bPick([]int{2000, 5000, 1000, 10000, 500, 20000, 200, 40000})) * time.Microsecond
+	if w.big {
+		w.period = time.Duration(c18bPick([]int{5000, 10000, 20000, 2000})) * time.Microsecond
+	}
+	w.poll = time.Duration(c18bPick([]int{2000, 5000, 1000, 10000})) * time.Microsecond
+	w.tsStep = uint64(w.period * time.Duration(ngroups) / (10 * time.Nanosecond))
+	w.runTicks = 6 + simrt.Draw(30)
+	w.history = simrt.Draw(3) // 0 a fresh ring, 1/2 an earlier session moved the pointers on
+	if simrt.Draw(3) == 2 {
+		w.prepDelay = time.Duration(c18bPick([]int{1, 5, 20, 60, 1 + simrt.Draw(100)})) * time.Millisecond
+	}
+	w.sessions = 1
+	if simrt.Draw(4) == 3 {
+		w.sessions = 2
+		w.pause = time.Duration(c18bPick([]int{20, 120, 400, 1 + simrt.Draw(300)})) * time.Millisecond
+		if !w.big {
+			w.restart = c18bPick([]int{0, 1, 2, 1})
+		}
+	}
+	if w.faulted {
+		w.drawFaults()
+	}
+	return w
+}
+
+// drawFrames draws the number of frames per packet: limited by the packet size (one value for all groups).
+func (w *c18bWorld) drawFrames() {
+	w.fpp = 1
 	maxF := 1 << 30
 	exact := 0
 	for _, g := range w.groups {
@@ -286,27 +317,6 @@ func newC18bWorld(env *simrt.Env) *c18bWorld {
 	if w.fpp > maxF {
 		w.fpp = maxF
 	}
-
-	w.period = time.Duration(c18bPick([]int{2000, 5000, 1000, 10000, 500, 20000, 200, 40000})) * time.Microsecond
-	if w.big {
-		w.period = time.Duration(c18bPick([]int{5000, 10000, 20000, 2000})) * time.Microsecond
-	}
-	w.poll = time.Duration(c18bPick([]int{2000, 5000, 1000, 10000})) * time.Microsecond
-	w.tsStep = uint64(w.period * time.Duration(ngroups) / (10 * time.Nanosecond))
-	w.runTicks = 6 + simrt.Draw(30)
-	w.history = simrt.Draw(3) // 0 a fresh ring, 1/2 an earlier session moved the pointers on
-	if simrt.Draw(3) == 2 {
-		w.prepDelay = time.Duration(c18bPick([]int{1, 5, 20, 60, 1 + simrt.Draw(100)})) * time.Millisecond
-	}
-	w.sessions = 1
-	if simrt.Draw(4) == 3 {
-		w.sessions = 2
-		w.pause = time.Duration(c18bPick([]int{20, 120, 400, 1 + simrt.Draw(300)})) * time.Millisecond
-	}
-	if w.faulted {
-		w.drawFaults()
-	}
-	return w
 }
 
 func (w *c18bWorld) drawFaults() {
@@ -356,6 +366,9 @@ func c18bFaultPick(menu []int) int { return menu[simrt.DrawFault(len(menu))] }
 func (w *c18bWorld) describe() string {
 	s := fmt.Sprintf("C18b world: big=%v ring of %d bytes = %d packets of %d + %d; %d group(s), %d frames/packet (header %d bytes), packet period %v, writer poll %v, writer mode %d, %d run ticks, history %d, %d session(s) (pause %v)",
 		w.big, w.size, w.npk, w.psize, w.extra, len(w.groups), w.fpp, w.hdrLen, w.period, w.poll, w.mode, w.runTicks, w.history, w.sessions, w.pause)
+	if w.restart > 0 {
+		s += fmt.Sprintf(", DEED restarted with another packet size between the sessions (kind %d)", w.restart)
+	}
 	for _, g := range w.groups {
 		bits := 16
 		if g.wide {
@@ -547,6 +560,17 @@ func (w *c18bWorld) createRing() {
 	w.rawName = fmt.Sprintf("xdma%d_c2h_0_buffer", card)
 	w.descName = fmt.Sprintf("xdma%d_c2h_0_description", card)
 	c18bPrevNames = [2]string{w.rawName, w.descName}
+	w.producerCreates()
+	dev, err := NewAbacoRing(card)
+	if err != nil {
+		w.fail("harness.setup", "harness:new-abaco-ring", "NewAbacoRing(%d): %v", card, err)
+	}
+	w.dev = dev
+}
+
+// producerCreates: what DEED does when it starts: it creates both regions (size w.size) and states its
+// packet size in the description block.
+func (w *c18bWorld) producerCreates() {
 	wb, _ := ringbuffer.NewRingBuffer(w.rawName, w.descName)
 	wb.Unlink() // leftovers of a killed earlier process with the same pid
 	if err := wb.Create(w.size); err != nil {
@@ -568,11 +592,7 @@ func (w *c18bWorld) createRing() {
 	}
 	// DEED states its packet size in the description block
 	binary.LittleEndian.PutUint64(w.desc[c18bOffPacket:], uint64(w.psize))
-	dev, err := NewAbacoRing(card)
-	if err != nil {
-		w.fail("harness.setup", "harness:new-abaco-ring", "NewAbacoRing(%d): %v", card, err)
-	}
-	w.dev = dev
+	w.unlinked = false
 	if w.extra != 0 {
 		simrt.Hit("ring-size-not-multiple-of-packet")
 	}
@@ -668,7 +688,11 @@ func (w *c18bWorld) makeHistory() {
 	if w.history > 0 {
 		// an earlier session: packets written and consumed (the earlier reader moved the read
 		// pointer on in whole packets), so that stream offsets are beyond the first lap
-		n := 1 + simrt.Draw(3*w.npk)
+		hn := w.npk
+		if hn > 64 { // (a ring re-used with a much smaller packet size has room for thousands: the writer's packet cap)
+			hn = 64
+		}
+		n := 1 + simrt.Draw(3*hn)
 		if w.big {
 			// (thousands of packets: the earlier session is represented by its end state, both pointers
 			// at packet n, and the packets it wrote and read are not written)
@@ -706,11 +730,135 @@ func (w *c18bWorld) makeHistory() {
 	}
 }
 
+// restartProducer: between two sessions (the source is stopped, its handle on the ring closed) DEED is
+// killed and started again with another packet size. The new DEED either creates both regions anew
+// (new files under the same names, another ring size) or finds the regions and rewrites the description
+// block (pointers back to 0, its packet size). Its stream starts at offset 0 again: ring packet k of the
+// new DEED lives at k·(new packet size). The AbacoRing and AbacoSource objects stay.
+func (w *c18bWorld) restartProducer() {
+	// the old DEED keeps writing for a part of the pause
+	time.Sleep(time.Duration(simrt.Draw(int(w.pause/time.Millisecond)+1)) * time.Millisecond)
+	w.kill = true
+	for !w.wdone {
+		time.Sleep(time.Millisecond)
+	}
+	old := w.psize
+	maxBpf := 0
+	for _, g := range w.groups {
+		bpf := 2 * g.nchan
+		if g.wide {
+			bpf = 4 * g.nchan
+		}
+		if bpf > maxBpf {
+			maxBpf = bpf
+		}
+	}
+	min := w.hdrLen + maxBpf + 8
+	if min < 64 {
+		min = 64
+	}
+	var divisors []int
+	for d := 2; d <= 64 && old/d >= min; d++ {
+		if old%d == 0 {
+			divisors = append(divisors, old/d)
+		}
+	}
+	kind := simrt.Draw(4)
+	if kind == 0 && len(divisors) == 0 {
+		kind = 1 + simrt.Draw(3)
+	}
+	ps := old
+	switch kind {
+	case 0: // smaller, dividing the old one: a boundary of the old stride is one of the new stride
+		ps = c18bPick(divisors)
+		simrt.Hit("restart-packet-size-divides-the-old-one")
+	case 1: // a multiple of the old one
+		ps = old * (2 + simrt.Draw(3))
+		simrt.Hit("restart-packet-size-multiple-of-the-old-one")
+	case 2: // larger, not a multiple
+		ps = c18bPick([]int{old + 8, old + 1, old + old/2, old + 1 + simrt.Draw(old)})
+		simrt.Hit("restart-packet-size-larger")
+	default: // unrelated
+		for try := 0; ps == old || ps < min; try++ {
+			ps = c18bPick([]int{8192, 512, 256, 1024, 128, 1000, 4096, 200, 1001, 8191, 257, 520, 3000, 8200, min + simrt.Draw(old)})
+			if try == 8 { // (a replayed, shortened tape answers 0 for ever)
+				ps = old + 24
+			}
+		}
+		if ps < old {
+			simrt.Hit("restart-packet-size-smaller")
+		} else {
+			simrt.Hit("restart-packet-size-larger")
+		}
+	}
+	if ps == old || ps < min {
+		w.fail("harness.restart", "harness:restart-packet-size", "new packet size %d (old %d, at least %d)", ps, old, min)
+	}
+	how := w.restart
+	if how == 2 && w.size/ps < 2 {
+		how = 1 // (the existing ring is too small for the new packets)
+	}
+	w.oldPsize, w.psize = old, ps
+	if how == 1 {
+		// new regions under the same names
+		w.unlink()
+		w.wb.Close()
+		syscall.Munmap(w.desc)
+		w.desc = nil
+		w.npk = c18bPick([]int{4, 2, 3, 8, 16, 5, 2 + simrt.Draw(15), 17 + simrt.Draw(48)})
+		w.extra = 0
+		if simrt.Draw(2) == 1 {
+			w.extra = c18bPick([]int{1, w.psize - 1, w.psize / 2, 8, 1 + simrt.Draw(w.psize-1)})
+		}
+		w.size = w.npk*w.psize + w.extra
+		w.producerCreates()
+		simrt.Hit("restart-ring-recreated")
+	} else {
+		// the regions stay; DEED initialises the description block as Create does
+		w.npk, w.extra = w.size/ps, w.size%ps
+		binary.LittleEndian.PutUint64(w.desc[c18bOffWrite:], 0)
+		binary.LittleEndian.PutUint64(w.desc[c18bOffRead:], 0)
+		binary.LittleEndian.PutUint64(w.desc[c18bOffPacket:], uint64(ps))
+		if w.unlinked {
+			w.fail("harness.restart", "harness:restart-unlinked", "the regions' names are gone before the last start")
+		}
+		simrt.Hit("restart-description-rewritten")
+	}
+	simrt.Hit("producer-restarted-with-other-packet-size")
+	// the new DEED's stream
+	w.wpos, w.built, w.cur, w.curOff, w.doneAt = 0, 0, nil, 0, nil
+	w.salt = uint32(simrt.Draw(1 << 16))
+	for _, g := range w.groups {
+		g.fate, g.delivAt = nil, nil
+		g.seq0 = 1 + uint32(simrt.Draw(1<<30))
+	}
+	w.drawFrames()
+	w.burstLeft, w.lastWStall = 0, 0
+	w.started, w.stop, w.kill, w.wdone = false, false, false, false
+	w.history = simrt.Draw(3)
+	if w.stalePartial >= w.psize {
+		w.stalePartial = w.psize - 1
+	}
+	for w.staleWhole*w.psize+w.stalePartial > w.size-1 {
+		if w.staleWhole > 0 {
+			w.staleWhole--
+		} else {
+			w.stalePartial = w.size - 1
+		}
+	}
+	w.env.Op("DEED restarted (kind %d): packet size %d -> %d, ring of %d bytes = %d packets + %d, %d frames/packet", how, old, ps, w.size, w.npk, w.extra, w.fpp)
+	w.makeHistory()
+	simrt.GoHarness("c18bWriter", w.writer)
+}
+
 func (w *c18bWorld) writer() {
 	defer func() { w.wdone = true }()
 	debug.SetPanicOnFault(true)
 	n := len(w.groups)
 	for {
+		if w.kill {
+			return // (the process is gone, whatever it was writing)
+		}
 		if w.cur == nil {
 			if w.built >= 4000 && !w.big || w.built >= 16000 {
 				w.stop = true
@@ -840,9 +988,6 @@ func (p *c18bProducer) start() error {
 	if err != nil {
 		w.fail("C18b.start", "ring:start-error", "AbacoRing.start() on a ring with read pointer %d, write pointer %d (packet size %d): %v", r0, w0, w.psize, err)
 	}
-	if p.dev.packetSize != w.psize {
-		w.fail("C18b.start", "ring:packet-size", "AbacoRing.start() took packet size %d from the description block, DEED wrote %d", p.dev.packetSize, w.psize)
-	}
 	state := fmt.Sprintf("start() on a ring of %d with packet size %d, write pointer %d (%d whole packets and %d bytes of the next written so far), read pointer %d: afterwards the read pointer is %d", w.size, w.psize, w0, w0/w.psize, w0%w.psize, r0, r1)
 	if r1 < r0 {
 		w.fail("C18b.start", "ring:start-moves-read-pointer-backwards", "%s, behind its old value: consumed data would be read again", state)
@@ -855,6 +1000,10 @@ func (p *c18bProducer) start() error {
 	}
 	if w0-r1 >= w.psize {
 		w.fail("C18b.start-stale", "ring:stale-packets-kept", "%s: %d whole stale packets stay in the ring and will be delivered as new", state, (w0-r1)/w.psize)
+	}
+	// (after the rules on what start() did to the ring, so that a wrong stride is reported by its effect where it has one)
+	if p.dev.packetSize != w.psize {
+		w.fail("C18b.start", "ring:packet-size", "AbacoRing.start() took packet size %d from the description block, DEED wrote %d", p.dev.packetSize, w.psize)
 	}
 	if w0%w.psize != 0 {
 		simrt.Hit("start-with-partial-packet-in-ring")
@@ -877,6 +1026,15 @@ func (p *c18bProducer) start() error {
 	}
 	if w.session > 0 {
 		simrt.Hit("restart-on-the-same-ring")
+	}
+	if w.oldPsize > 0 {
+		simrt.Hit("start-after-packet-size-change")
+		if w0-r0 >= w.psize {
+			simrt.Hit("start-after-packet-size-change-with-stale-packets")
+		}
+		if w0/w.psize*w.psize%w.oldPsize != 0 {
+			simrt.Hit("start-after-packet-size-change-old-stride-off-boundary")
+		}
 	}
 	return err
 }
